@@ -359,7 +359,7 @@ def check_package(acc, pkg, st, base, wit):
             ok = text is not None and re.fullmatch(r"[0-9]+", text) is not None and int(text) == want
         else:
             try:
-                inst = w3c_instant(text)
+                inst = w3c_instant(text.strip())
             except OverflowError:
                 inst = None
             ok = inst is not None and inst[0] == want
@@ -606,6 +606,10 @@ def w3c_cases(tier, seed):
         out += [(g, w3c_text(g, b, "", "")) for g in GRANS[:3]]
         for j, z in enumerate(tzds(tier)):
             out += [(g, w3c_text(g, b, z, ["5", "25", "123", "123456", "1234567", "000"][(i + j) % 6])) for g in GRANS[3:]]
+        # white space around the value (a pretty-printed core.xml): xsd:dateTime collapses it, the value is the same
+        for z in ("Z", "+05:00", "-08:30"):
+            out += [("seconds", w3c_text("seconds", b, z, "") + "\n"), ("seconds", "\n    " + w3c_text("seconds", b, z, "") + "\n  ")]
+        out += [("day", " " + w3c_text("day", b, "", "") + " ")]
     return out
 
 
